@@ -3,6 +3,7 @@ Pure configuration: no verdict is computed here."""
 
 MC_CONFIGS = {
     'MC_Num': {'tla': 'MC_Num.tla', 'cfg': 'MC_Num.cfg', 'workers': 4, 'timeout': 300},
+    'MC_Macro': {'tla': 'MC_Macro.tla', 'cfg': 'MC_Macro.cfg', 'workers': 8, 'timeout': 600},
 }
 
 REGS3 = ['cat', 'fx', 'core']
@@ -34,6 +35,7 @@ PROPS = {
     'C09': {
         'mc': [],
         'drivers': drv('units') + drv('lookup'),
+        'py': ['c09gen'],
         'clauses': ['C09.'],
         'must_hit': ['C09.iter_exact', 'C09.consts', 'C09.one_ref', 'C09.unit_from_symbol', 'C09.unit_from_scale', 'C09.as_qty', 'C09.from_symbol', 'C09.from_scale'],
         'nontrivial': ['C09.from_symbol', 'C09.from_scale', 'C09.iter_exact'],
@@ -137,5 +139,35 @@ PROPS = {
         'must_hit': ['C18.total.convert', 'C18.total.cmp', 'C18.total.arith', 'C18.total.derived', 'C18.total.fit', 'C18.total.rate', 'C18.total.format', 'C18.total.scalar'],
         'nontrivial': ['C18.total.convert', 'C18.total.cmp', 'C18.total.arith', 'C18.total.derived', 'C18.total.rate'],
         'rule': 'special-value sweep: every operation x unit pairs x {+-0, subnormal, +-MAX, +-inf, NaN}^2 (f64) / amounts at and beyond the edges of the decimal range predicate (Decimal; the specification decides exactly which events are inside the claim), plus the C18.total clauses evaluated on the traces of C01-C05, C08, C13-C15 (quick: fixture and model registries; thorough: the whole catalogue)',
+    },
+    'C06': {
+        'mc': [],
+        'drivers': [],
+        'py': ['c06'],
+        'clauses': ['C06.'],
+        'must_hit': ['C06.accepts_meaningful', 'C06.rejects_meaningless', 'C06.result_type_exact'],
+        'nontrivial': ['C06.accepts_meaningful', 'C06.rejects_meaningless', 'C06.result_type_exact'],
+        'exhaustive': True,
+        'rule': 'all ordered pairs of the 14 catalogue types and the amount type x {+,-,*,/,==,<} (1350 programs) per back-end, the same for the astronomical crate (f64), each accepted program again with every possible result-type ascription; one function per program, verdict = rustc reports an error whose primary span lies in that function; expected verdict computed by TLC from the declared derivations',
+        'assumptions': ['rustc type checker is the observer of "type-checks"'],
+    },
+    'C11': {
+        'mc': [],
+        'drivers': drv('units', regs=['fx', 'core']),
+        'py': ['c11'],
+        'clauses': ['C'],
+        'must_hit': ['C11.symbol', 'C11.name', 'C11.prefix', 'C11.scale', 'C11.variant_and_const_names', 'C11.generated_items_compile', 'C09.iter_exact', 'C09.consts'],
+        'nontrivial': ['C11.scale', 'C11.symbol', 'C09.iter_exact'],
+        'rule': 'VERIF_SEED-generated well-formed declarations (1-8 units, alphabetic snake/camel identifiers, symbols incl. non-ASCII, integer / float / exponent literal spellings of the same scale, optional SI prefix and docs, with / without reference unit, single-unit, basic and derived incl. squares and AmountT quotients), each rendered twice (original and attribute-permuted) through the real macro, compiled in both back-ends, dumped, and driven through the generic drivers of C01-C05, C08-C10; every clause of every family is judged on them',
+    },
+    'C12': {
+        'mc': ['MC_Macro'],
+        'drivers': [],
+        'py': ['c12'],
+        'clauses': ['C12.'],
+        'must_hit': ['C12.malformed_rejected', 'C12.error_at_definition', 'C12.defect_class_is_malformed'],
+        'nontrivial': ['C12.malformed_rejected'],
+        'rule': 'about 40 defect classes (no unit, two reference units, scale on reference unit, unit without scale, scale / prefix without reference unit, missing / mistyped / surplus / misordered attribute arguments, missing comma, no argument list, named / tuple fields, type / lifetime / const generic parameters, enum / fn / type items, seven malformed #[quantity(..)] arguments, derived definitions whose operand or result lacks a reference unit) applied to VERIF_SEED-generated well-formed definitions (each base is compiled too); every program compiled on its own by rustc against the freshly built library, in both back-ends; WellFormed() of the specification predicts the verdict, the error must be located within the lines of the offending definition',
+        'assumptions': ['rustc diagnostics (primary spans / macro expansion call sites) locate the error'],
     },
 }
